@@ -169,6 +169,15 @@ func (r *Run) callVF(caller *frame, pos token.Pos, fn *ssa.Function, args []Valu
 		})
 		r.sched.settle()
 		return mkBool(!done)
+	case "Amplify":
+		return args[0]
+	case "Stub":
+		f := args[1]
+		if iv, ok := f.(Iface); ok {
+			f = iv.V
+		}
+		r.stubs[strArg(args[0])] = f
+		return nil
 	case "Deviations":
 		r.schedBudget = int(r.concInt(args[0], "vf.Deviations k"))
 		return nil
